@@ -435,7 +435,7 @@ def run(ctx):
         d = 2 if cname in ('SO2', 'SE2') else 3
         rigid = cname in ('SE2', 'SE3', 'UnitDualQuaternion')
         multi = cname != 'UnitDualQuaternion' and rng.random() < 0.3
-        M = int(rng.integers(2, 6)) if multi else 1
+        M = int(rng.integers(2, 8)) if multi else 1
         if multi and rng.random() < 0.04:
             M = [16, 17, 64, 100][rng.integers(4)]          # many pose values (a batch path would show here)
         if M > 1 or cname == 'UnitDualQuaternion':
@@ -449,6 +449,13 @@ def run(ctx):
         if cname == 'UnitDualQuaternion':
             form = ['list', 'tuple', 'array'][rng.integers(3)]
         p = dict(cls=cname, mats=pose_mats(rng, d, M, rigid), form=form, P=points(rng, d, N))
+        if rigid and rng.random() < 0.1:
+            # everything at the bottom of the stated range at once: points of 1e-6 .. 1e-5 in every coordinate and a translation that is
+            # tiny but not zero (1e-16 .. 1e-10): R p + t still has its t
+            p['P'] = np.array([[gen.sign(rng) * gen.logu(rng, 1e-6, 1e-5) for _ in range(N)] for _ in range(d)])
+            for T_ in p['mats']:
+                u_ = rng.normal(size=d)
+                T_[:d, d] = u_ / np.linalg.norm(u_) * gen.logu(rng, 1e-16, 1e-10)
         if form == 'array2d' and N == d and rng.random() < 0.3:
             # d points whose coordinates happen to form the identity / a rotation matrix (a frame's axes as points): still points
             p['P'] = np.eye(d) if rng.random() < 0.4 else (gen.so3(rng) if d == 3 else gen.so2(rng))
